@@ -11,6 +11,8 @@ from __future__ import annotations
 
 import random
 
+FIELD_PREFIXES = ["a", "b", "c", "x", "v", "len", "d", "fld"]
+NESTED_TAGS = ["item", "hdr", "entry", "node"]
 INT_PACKED = ["int8", "uint8", "int16", "uint16", "int32", "uint32", "int64", "uint64"]
 INT_WIDE = ["int24", "uint24", "int48", "uint48", "int128", "uint128"]
 FLOATS = ["float16", "float", "double"]
@@ -136,8 +138,18 @@ class DefGen:
         return rng.choice(forms)
 
     # ---- structs
-    def struct(self, depth=0, kind=None, name=None, root=False):
+    def struct(self, depth=0, kind=None, name=None, root=False, ns=None):
         rng, sw = self.rng, self.sw
+        # field names are local to a structure (a0, a1, ... / len0, ...): different structures routinely share field
+        # names, which matters for everything the library caches per field count or per name. Members of an anonymous
+        # nested structure are folded into the parent and therefore draw from the parent's namespace.
+        if ns is None:
+            ns = {"p": rng.choice(FIELD_PREFIXES), "n": 0}
+
+        def nf():
+            ns["n"] += 1
+            return f"{ns['p']}{ns['n'] - 1}"
+
         if kind is None:
             kind = "union" if (sw["union"] and rng.random() < 0.25) else "struct"
         name = name or self.uid("S" if kind == "struct" else "U")
@@ -151,7 +163,7 @@ class DefGen:
         while i < nfields:
             i += 1
             last = i == nfields
-            fname = self.uid("f")
+            fname = nf()
             r = rng.random()
             f = {"name": fname, "type": None, "inline": None, "ptr": 0, "dims": [], "bits": None}
             fdyn = False
@@ -173,7 +185,7 @@ class DefGen:
                     w = rng.randint(1, min(left, 12))
                     if j == k - 1 and rng.random() < 0.5:
                         w = left
-                    fields.append({"name": self.uid("b"), "type": tname, "inline": None, "ptr": 0, "dims": [], "bits": w})
+                    fields.append({"name": nf(), "type": tname, "inline": None, "ptr": 0, "dims": [], "bits": w})
                     left -= w
                 # a plain field must follow so that the next run starts a new unit
                 f["type"] = rng.choice(INT_PACKED)
@@ -203,14 +215,15 @@ class DefGen:
                         fields.append(f)
                         dynamic_seen = dynamic_seen or fdyn
                         continue
-                sub = self.struct(depth + 1, sub_kind, name=self.uid("n"))
+                anon = sw["anon"] and rng.random() < 0.35
+                sub = self.struct(depth + 1, sub_kind, name=self.uid("n"), ns=ns if anon else None)
                 subname = sub["name"]
                 self.structs.remove(sub)  # inline, not top level
                 fdyn = self.dynamic.pop(subname)
                 sub_allint = self.allint.pop(subname)
-                anon = sw["anon"] and rng.random() < 0.35
                 inline = dict(sub)
-                inline["name"] = None if rng.random() < 0.7 else subname
+                # nested tags come from a small pool: unrelated structures often declare their own 'struct item {..}'
+                inline["name"] = None if rng.random() < 0.6 else rng.choice(NESTED_TAGS)
                 f["inline"] = inline
                 if anon:
                     f["name"] = None
@@ -277,7 +290,7 @@ class DefGen:
             fields.append(f)
             dynamic_seen = dynamic_seen or fdyn
         if not fields:
-            fields.append({"name": self.uid("f"), "type": "uint8", "inline": None, "ptr": 0, "dims": [], "bits": None})
+            fields.append({"name": nf(), "type": "uint8", "inline": None, "ptr": 0, "dims": [], "bits": None})
         sd = {"kind": kind, "name": name, "fields": fields}
         self.structs.append(sd)
         self.dynamic[name] = dynamic_seen
@@ -286,8 +299,19 @@ class DefGen:
 
     def build(self, n_top=None):
         n_top = n_top or self.rng.randint(1, 3)
+        import copy as _copy
+
         for k in range(n_top):
             self.struct(depth=0, root=(k == n_top - 1))
+            if self.rng.random() < 0.2:
+                # a twin: another top-level structure with exactly the same members under another name
+                src = self.rng.choice(self.structs)
+                twin = _copy.deepcopy(src)
+                twin["name"] = self.uid("S" if twin["kind"] == "struct" else "U")
+                pos = len(self.structs) if k < n_top - 1 else len(self.structs) - 1
+                self.structs.insert(pos, twin)
+                self.dynamic[twin["name"]] = self.dynamic[src["name"]]
+                self.allint[twin["name"]] = self.allint[src["name"]]
         return {"defines": self.defines, "enums": self.enums, "structs": self.structs}
 
 
